@@ -24,7 +24,7 @@ import (
 func TestVerifC05(t *testing.T) {
 	vfMain(t, vfCheck{
 		ID: "C05", Level: "exploration",
-		Rule: "seeded operation sequences (length 5..60) over the names {a,b,c,d,d/x,d/y,d/e,d/e/z,l,m,nope} with all 21 listed operations (OpenFile with every access/creation flag combination), so that collisions, missing parents, non-empty directories, dangling and directory symlinks and files-where-directories-are-expected occur; absolute paths and working-directory-relative paths (WithServerWorkingDirectory). Documented differences are encoded: Mkdir has no mode (0755), Create is 0666 before umask 022, RemoveAll errors on a missing path, RealPath is lexical, StatVFS compares the stable fields; the empty path and ill-formed glob patterns are excluded. A class is (operation, outcome category on the os side, path style).",
+		Rule:        "seeded operation sequences (length 5..60) over the names {a,b,c,d,d/x,d/y,d/e,d/e/z,l,m,nope} with all 21 listed operations (OpenFile with every access/creation flag combination), so that collisions, missing parents, non-empty directories, dangling and directory symlinks and files-where-directories-are-expected occur; absolute paths and working-directory-relative paths (WithServerWorkingDirectory). Documented differences are encoded: Mkdir has no mode (0755), Create is 0666 before umask 022, RemoveAll errors on a missing path, RealPath is lexical, StatVFS compares the stable fields; the empty path and ill-formed glob patterns are excluded. A class is (operation, outcome category on the os side, path style).",
 		Assumptions: []string{"runs as root with umask 022", "unordered results (ReadDir, Glob, Walk) are compared as multisets; atime and un-set mtimes are not compared"},
 		Units: func(tier vfTier, seed uint64) int {
 			if tier == vfThorough {
@@ -44,12 +44,12 @@ func TestVerifC05(t *testing.T) {
 }
 
 type c05Step struct {
-	op     string
-	p1, p2 string // tree-relative
-	flags  int
-	mode   os.FileMode
-	size   int64
-	t      int64
+	op             string
+	p1, p2         string // tree-relative
+	flags          int
+	mode           os.FileMode
+	size           int64
+	t              int64
 	verbatimTarget bool
 }
 
